@@ -185,6 +185,77 @@ def check_callable(ctx, case):
                                                "stack_innermost_first": stack, "call": shape, "raises": raises})
 
 
+def colour_cases(ctx):
+    """Foreign functools.wraps decorators that change the colour of the callable (a sync adapter that runs an `async def`
+    to completion, an async adapter around a `def`), with satisfied contracts above and/or below them: the stack with
+    contracts must behave like the stack without - same coroutine-ness, same result object, body run once."""
+    import functools
+    import itertools
+
+    import icontract
+
+    def sync_over_async(fn):
+        @functools.wraps(fn)
+        def w(*a, **k):
+            return RUN.drive(fn(*a, **k))
+        return w
+
+    def async_over_sync(fn):
+        @functools.wraps(fn)
+        async def w(*a, **k):
+            return fn(*a, **k)
+        return w
+
+    for inner_async, where, deco in itertools.product((False, True), ("above", "below", "both"), ("require", "ensure")):
+        log = []
+        result = Obj("RESULT")
+
+        if inner_async:
+            async def f(x):
+                log.append(x)
+                return result
+            adapter = sync_over_async
+        else:
+            def f(x):
+                log.append(x)
+                return result
+            adapter = async_over_sync
+
+        def contract(fn):
+            if deco == "require":
+                return icontract.require(lambda x: x is not None)(fn)
+            return icontract.ensure(lambda result: result is not None)(fn)
+
+        twin = adapter(f)
+        g = f
+        if where in ("below", "both"):
+            g = contract(g)
+        g = adapter(g)
+        if where in ("above", "both"):
+            g = contract(g)
+        label = "%s function, %s adapter, %s %s the adapter" % ("async" if inner_async else "sync", adapter.__name__, deco, where)
+        case = {"part": "colour", "directed": [inner_async, where, deco]}
+        ctx.case(["colour", inner_async, where, deco], True, sample={"directed": label})
+        if inspect.iscoroutinefunction(g) != inspect.iscoroutinefunction(twin):
+            ctx.fail("colour|coroutine-ness|%s" % where, case, "%s: iscoroutinefunction is %s, without the contracts %s" % (
+                label, inspect.iscoroutinefunction(g), inspect.iscoroutinefunction(twin)))
+            continue
+        outs = []
+        for fn in (twin, g):
+            del log[:]
+            arg = Obj("ARG")
+            try:
+                r = fn(arg)
+                if inspect.iscoroutine(r):
+                    r = RUN.drive(r)
+                outs.append(("ret", r is result, len(log)))
+            except BaseException as e:  # noqa
+                outs.append(("exc", type(e).__name__, len(log)))
+        if outs[0] != outs[1]:
+            ctx.fail("colour|outcome|%s" % where, case, "%s: without contracts %r (returned the body's object, bodies run), with "
+                     "contracts %r" % (label, outs[0], outs[1]))
+
+
 def same(a, b):
     if isinstance(a, tuple) and isinstance(b, tuple):
         return len(a) == len(b) and all(x is y for x, y in zip(a, b))
@@ -375,9 +446,15 @@ def run(ctx, tier, seed, shard, nshards):
         check_class(ctx, dict(D23_CASE))
         for case in directed_class_cases():
             check_class(ctx, case)
+        colour_cases(ctx)
 
 
 def replay(ctx, case):
+    if case.get("part") == "colour":
+        before = ctx.evaluations
+        colour_cases(ctx)
+        ctx.evaluations = before
+        return
     if case.get("part") == "A":
         return check_callable(ctx, case)
     check_class(ctx, case)
